@@ -30,6 +30,30 @@ def const_value(F, q):
     return val
 
 
+def constant_by_role(F, frozen_qn, user_qn, nparams=None):
+    """The namespace-scope constant a format description knows as `frozen_qn`, on the current tree: that variable if it still
+    exists; otherwise the one variable of the same type that function `user_qn` (the code the description says uses it)
+    mentions - a renamed or moved constant is still the constant that code compares / writes."""
+    if frozen_qn in F.vars:
+        return frozen_qn
+    fns = [f for f in F.fns(user_qn) if nparams is None or len(f.params) == nparams]
+    cands = set()
+
+    def walk(t):
+        if isinstance(t, tuple):
+            if len(t) == 2 and t[0] == "global" and t[1] in F.vars and isinstance(F.vars[t[1]].get("value"), (dict, list)):
+                cands.add(t[1])
+            for x in t:
+                walk(x)
+    for f in fns:
+        for nd in f.nodes:
+            if nd["k"] in ("DeclRefExpr",):
+                walk(f.term(nd["id"]))
+    if len(cands) != 1:
+        raise AnalysisBroken("format constant %s not found (and no single constant is used by %s)" % (frozen_qn, user_qn))
+    return cands.pop()
+
+
 def r_layout(F, records=(), enums=(), constants=()):
     sp = spec()
     out = []
@@ -95,9 +119,11 @@ def r_layout(F, records=(), enums=(), constants=()):
             out.append(bad("R-LAYOUT", inst, site, q, "enumerator values are those of the format",
                            "differs at %s" % ", ".join("%s (found %s, format %s)" % (k, got.get(k), want.get(k)) for k in sorted(d)[:4])))
     for q in constants:
-        if q not in sp["constants"]:
-            raise AnalysisBroken("no format value recorded for constant %s" % q)
-        want = sp["constants"][q]
+        # (frozen name, name on the current tree) when the constant was found by its role rather than by its name
+        q0, q = q if isinstance(q, tuple) else (q, q)
+        if q0 not in sp["constants"]:
+            raise AnalysisBroken("no format value recorded for constant %s" % q0)
+        want = sp["constants"][q0]
         got = const_value(F, q)
         v = F.vars[q]
         site = "%s:%s" % (v["loc"]["file"].split("/")[-1], v["loc"]["line"])
